@@ -164,4 +164,14 @@ SPEC_FLOAT(f32, 32) SPEC_FLOAT(f64, 64)
   static inline _Bool spec_maxok_##T(u##W r, u##W a, u##W b) { T x = U2F##W(a), y = U2F##W(b), z = U2F##W(r); return (r == a || r == b) && z >= x && z >= y; }
 SPEC_FLOAT2(f32, 32, f) SPEC_FLOAT2(f64, 64, )
 
+/* nextafter(from, to) on bit patterns (C library semantics): NaN if either is NaN; `to` if they compare equal; from zero the smallest
+ * denormal with the sign of the direction; otherwise one step of the bit pattern, up in magnitude iff the direction points away from zero */
+#define SPEC_NEXTAFTER(T, W) \
+  static inline _Bool spec_nextafterok_##T(u##W r, u##W a, u##W b) { T x = U2F##W(a), y = U2F##W(b); \
+    if (x != x || y != y) return spec_isnan_##T(r); \
+    if (x == y) return spec_samenum_##T(r, b); \
+    if (x == (T)0) return r == (y > x ? (u##W)1 : (((u##W)1 << (W - 1)) | (u##W)1)); \
+    return r == (((y > x) == (x > (T)0)) ? (u##W)(a + 1) : (u##W)(a - 1)); }
+SPEC_NEXTAFTER(f32, 32) SPEC_NEXTAFTER(f64, 64)
+
 #endif
